@@ -93,7 +93,12 @@ fn main() {
     }
     // library panics are expected outcomes ("refuse"); keep them quiet
     if !verbose {
-        std::panic::set_hook(Box::new(|_| {}));
+        // ... but a panic outside `run_catch` is a failure of the machinery and must be seen
+        std::panic::set_hook(Box::new(|info| {
+            if common::CATCH_DEPTH.with(|d| d.get()) == 0 {
+                eprintln!("MACHINERY-ERROR: the harness panicked outside a guarded library call: {}", info);
+            }
+        }));
     }
     let opts = Opts { id: id.clone(), tier, seed, only, threads, verbose };
     // the reference model is validated before it is believed (fixtures + finite differences)
